@@ -393,6 +393,7 @@ def c16_sequence(rec, rng, kind, length, case):
     add = blk.addSignal if kind == "emg" else blk.add_track
     cls = {"data3D": tdfData3D.MarkerTrack, "force3D": tdfForce3D.ForceTorqueTrack, "emg": tdfEMG.EMGTrack}[kind]
     shadow = []
+    used_channels = set()
 
     def V(key, msg):
         rec.violation("C16", f"{kind}:{key}", f"[n={n}, after {steps}] {msg}", dict(case, steps=list(steps)))
@@ -412,21 +413,51 @@ def c16_sequence(rec, rng, kind, length, case):
         t = _track(rng, kind, n); add(t); shadow.append(t)
     for _ in range(length):
         r = rng.random()
+        chan = {}
+        if kind == "emg" and rng.random() < 0.5:   # explicit, unused acquisition channel
+            chan = {"channel": 1000 + rng.randint(0, 30000)}
+            while chan["channel"] in used_channels:
+                chan["channel"] += 1
         if r < 0.3:
-            t = _track(rng, kind, n); steps.append("add(valid)")
+            t = _track(rng, kind, n); steps.append(f"add(valid{', channel' if chan else ''})")
             try:
-                add(t)
+                add(t, **chan)
             except Exception as e:
                 V("valid-track-refused", f"{type(e).__name__}: {e}"); return
+            if chan:
+                used_channels.add(chan["channel"])
             shadow.append(t)
         elif r < 0.6:
-            obj, why = _bad(rng, kind, n); steps.append(f"add({why})")
+            obj, why = _bad(rng, kind, n); steps.append(f"add({why}{', channel' if chan else ''})")
             rec.count("oracle:C16.bad-add-refused")
             try:
-                add(obj)
-                V(f"add:{why.split('(')[0]}:accepted", f"{why} was accepted"); return
+                add(obj, **chan)
+                V(f"add:{why.split('(')[0]}:accepted", f"{why} was accepted{' (explicit channel)' if chan else ''}"); return
             except Exception:
                 pass
+        elif kind != "emg" and r < 0.72 and shadow:
+            # the assigned iterable is derived lazily from the block's own list
+            how = rng.choice(["same-list", "reversed", "generator-filter", "slice-view"])
+            steps.append(f"tracks=<{how} of own tracks>")
+            own = blk.tracks
+            if how == "same-list":
+                want, it = list(own), own
+            elif how == "reversed":
+                want, it = list(reversed(own)), reversed(own)
+            elif how == "generator-filter":
+                keep = set(ident(own)[::2])
+                want, it = [t_ for t_ in own if id(t_) in keep], (t_ for t_ in own if id(t_) in keep)
+            else:
+                want, it = list(own[1:]), iter(own[1:])
+            try:
+                blk.tracks = it
+            except Exception as e:
+                V("assign:valid-list-refused", f"{how}: {type(e).__name__}: {e}"); return
+            cur, oerr = observe_tracks(kind, blk)
+            rec.count("oracle:C16.assignment-from-own-list")
+            if ident(cur) != ident(want):
+                V("assign:installed-list-differs", f"{how}: {len(cur)} tracks installed, {len(want)} assigned"); return
+            shadow = list(want)
         elif kind != "emg":
             k = rng.randint(0, 5)
             lst = [_track(rng, kind, n) for _ in range(k)]
@@ -503,13 +534,53 @@ def c18_block(rec, rng, kind, case):
         blk, _ = lib.dec(kind, lib.fmt_of(blk), lib.enc(blk))
 
     def V(key, msg):
-        rec.violation("C18", f"{kind}:{key}", f"[labels={labels}] {msg}", dict(case, labels=labels))
+        rec.violation("C18", f"{kind}:{key}", f"[labels={labels}, edits={edits_done}] {msg}", dict(case, labels=labels, edits=list(edits_done)))
+    edits_done = []
+    for round_ in range(rng.choice([1, 2, 3])):
+        if round_ > 0:
+            # edit the block through its public interface, then every lookup must reflect the new state
+            cur = list(blk)
+            how = rng.choice(["remove", "append"]) if cur else "append"
+            try:
+                if how == "remove":
+                    j = rng.randrange(len(cur))
+                    if kind == "emg":
+                        lab = cur[j].label
+                        j = [c_.label for c_ in cur].index(lab)  # removeSignal drops the first signal with that label
+                        blk.removeSignal(lab)
+                    elif kind == "events":
+                        blk.events.pop(j)
+                    else:
+                        blk.tracks = [c_ for i_, c_ in enumerate(cur) if i_ != j]
+                    labels = [lb for i_, lb in enumerate(labels) if i_ != j]
+                    edits_done.append(f"remove#{j}")
+                else:
+                    lb = rng.choice(LABEL_POOL)
+                    if kind == "events":
+                        blk.events.append(tdfEvents.Event(lb, [2.0]))
+                    elif kind == "emg":
+                        blk.addSignal(lib.build_item(kind, {"label": lb, "frames": gen.rframes(rng, [True] * n, 1)}, {}))
+                    else:
+                        w = 3 if kind == "data3D" else 9
+                        blk.add_track(lib.build_item(kind, {"label": lb, "frames": gen.rframes(rng, [True] * n, w)}, {}))
+                    labels = labels + [lb]
+                    edits_done.append(f"append({lb!r})")
+            except Exception as e:
+                rec.count(f"c18:edit-refused:{type(e).__name__}")
+                return
+            k = len(labels)
+            rec.count("c18:lookups-after-edit")
+        if not _c18_probe(rec, rng, kind, blk, labels, k, V):
+            return
+
+
+def _c18_probe(rec, rng, kind, blk, labels, k, V):
     x0 = lib.enc(blk)
     items = list(blk)
     ids0 = ident(items)
     rec.count("oracle:C18.len==iter")
     if len(blk) != len(items) or len(items) != k:
-        V("len!=iteration", f"len()={len(blk)}, iteration yields {len(items)}, {k} items were added"); return
+        V("len!=iteration", f"len()={len(blk)}, iteration yields {len(items)}, {k} items were added"); return False
     labs = [i.label for i in items]
     # integer keys
     for i in range(-k - 2, k + 3):
@@ -520,11 +591,11 @@ def c18_block(rec, rng, kind, case):
             got, err = None, e
         if -k <= i < k:
             if err is not None:
-                V("valid-index-raises", f"[{i}] raised {type(err).__name__}"); return
+                V("valid-index-raises", f"[{i}] raised {type(err).__name__}"); return False
             if got is not items[i]:
-                V("index-returns-other-item", f"[{i}] is not the {i}-th iterated item"); return
+                V("index-returns-other-item", f"[{i}] is not the {i}-th iterated item"); return False
         elif err is None:
-            V("out-of-range-index-returns", f"[{i}] returned {got!r} with {k} items"); return
+            V("out-of-range-index-returns", f"[{i}] returned {got!r} with {k} items"); return False
     # label keys
     probes = set(labs) | {"a", "A", " a", "a ", "", "dup", "DUP", "zzz", "é", "e", "x" * 254}
     for lb in sorted(probes):
@@ -538,60 +609,61 @@ def c18_block(rec, rng, kind, case):
         except Exception as e:
             cont, cerr = None, e
         if cerr is not None:
-            V("label-membership-raises", f"({lb!r} in block) raised {type(cerr).__name__}"); return
+            V("label-membership-raises", f"({lb!r} in block) raised {type(cerr).__name__}"); return False
         if lb in labs:
             first = items[labs.index(lb)]
             if err is not None:
-                V("present-label-raises", f"[{lb!r}] raised {type(err).__name__}: {err}"); return
+                V("present-label-raises", f"[{lb!r}] raised {type(err).__name__}: {err}"); return False
             if got is not first:
                 V("label-returns-not-first-match", f"[{lb!r}] returned item #{ident(items).index(id(got)) if id(got) in ident(items) else '?'} "
-                  f"first match is #{labs.index(lb)}"); return
+                  f"first match is #{labs.index(lb)}"); return False
             if cont is not True and cont != True:  # noqa: E712
-                V("contains-disagrees-with-lookup", f"{lb!r} in block is {cont} but lookup succeeds"); return
+                V("contains-disagrees-with-lookup", f"{lb!r} in block is {cont} but lookup succeeds"); return False
         else:
             if err is None:
-                V("absent-label-returns", f"[{lb!r}] returned {got!r}"); return
+                V("absent-label-returns", f"[{lb!r}] returned {got!r}"); return False
             if not isinstance(err, KeyError):
-                V("absent-label-wrong-exception", f"[{lb!r}] raised {type(err).__name__}, not KeyError"); return
+                V("absent-label-wrong-exception", f"[{lb!r}] raised {type(err).__name__}, not KeyError"); return False
             if cont:
-                V("contains-disagrees-with-lookup", f"{lb!r} in block is {cont} but lookup raises KeyError"); return
+                V("contains-disagrees-with-lookup", f"{lb!r} in block is {cont} but lookup raises KeyError"); return False
     # item objects
     for it in items:
         rec.count("oracle:C18.item-membership")
         try:
             if not (it in blk):
-                V("contained-item-not-in", "an item of the block is reported as not contained"); return
+                V("contained-item-not-in", "an item of the block is reported as not contained"); return False
         except Exception as e:
-            V("item-membership-raises", f"{type(e).__name__}: {e}"); return
+            V("item-membership-raises", f"{type(e).__name__}: {e}"); return False
     # unsupported key types
     for bad in (None, 1.5, b"a", ("a",), [0], {"a"}):
         rec.count("oracle:C18.bad-key")
         try:
             blk[bad]
-            V("unsupported-key-accepted", f"[{bad!r}] returned"); return
+            V("unsupported-key-accepted", f"[{bad!r}] returned"); return False
         except TypeError:
             pass
         except Exception as e:
-            V("unsupported-key-wrong-exception", f"[{bad!r}] raised {type(e).__name__}, not TypeError"); return
+            V("unsupported-key-wrong-exception", f"[{bad!r}] raised {type(e).__name__}, not TypeError"); return False
         try:
             bad in blk
-            V("unsupported-membership-accepted", f"({bad!r} in block) returned"); return
+            V("unsupported-membership-accepted", f"({bad!r} in block) returned"); return False
         except TypeError:
             pass
         except Exception as e:
-            V("unsupported-membership-wrong-exception", f"({bad!r} in block) raised {type(e).__name__}"); return
+            V("unsupported-membership-wrong-exception", f"({bad!r} in block) raised {type(e).__name__}"); return False
     for it in items[:1]:
         try:
             blk[it]
-            V("item-as-key-accepted", "[item object] returned"); return
+            V("item-as-key-accepted", "[item object] returned"); return False
         except TypeError:
             pass
         except Exception as e:
-            V("item-as-key-wrong-exception", f"{type(e).__name__}"); return
+            V("item-as-key-wrong-exception", f"{type(e).__name__}"); return False
     # purity
     rec.count("oracle:C18.pure")
     if ident(list(blk)) != ids0 or lib.enc(blk) != x0:
-        V("lookup-changed-the-block", "items or encoding changed after the lookups"); return
+        V("lookup-changed-the-block", "items or encoding changed after the lookups"); return False
+    return True
 
 
 def shard_c18(desc, rec):
@@ -741,11 +813,26 @@ def shard_c20(desc, rec):
                 steps.append("decode-twice")
                 d1, _ = lib.dec(kind, lib.fmt_of(src), x)
                 d2, _ = lib.dec(kind, lib.fmt_of(src), x)
+                rec.count("oracle:C20.two-decodes-are-two-objects")
+                if d1 is d2 or d1 is src:
+                    V("decode-returns-shared-object", "decoding the same bytes twice returned one and the same block object"); ok = False; break
                 pool.extend([d1, d2])
                 pool = pool[-4:]
+            elif r < 0.5 and kind in ("data3D", "force3D") and len(pool) >= 2:
+                # hand one block's track list to another block's setter: afterwards they still are two blocks
+                a_, b_ = rng.sample(range(len(pool)), 2)
+                if pool[a_] is pool[b_]:
+                    continue
+                steps.append(f"#{b_}.tracks = #{a_}.tracks")
+                try:
+                    pool[b_].tracks = pool[a_].tracks
+                except Exception as e:
+                    steps.append(f"refused:{type(e).__name__}")
             else:
                 j = rng.randrange(len(pool))
-                others = [(k, _snapshot(kind, b)) for k, b in enumerate(pool) if k != j and b is not pool[j]]
+                if any(b is pool[j] for k, b in enumerate(pool) if k != j):
+                    V("two-instances-are-one-object", "two separately obtained instances are the same object"); ok = False; break
+                others = [(k, _snapshot(kind, b)) for k, b in enumerate(pool) if k != j]
                 try:
                     what = _mutate(kind, pool[j], rng)
                 except Exception as e:
@@ -753,8 +840,12 @@ def shard_c20(desc, rec):
                     continue
                 steps.append(f"mutate#{j}:{what}")
                 rec.count("oracle:C20.others-unchanged")
+                mine = set(ident(_items(kind, pool[j])))
                 for k, snap in others:
                     now = _snapshot(kind, pool[k])
+                    if what in ("edit-item-field", "edit-sample-in-place") and mine & set(snap[0]):
+                        rec.count("c20:item-edit-on-deliberately-shared-item(not judged)")
+                        continue   # the harness itself put the same item objects into both blocks
                     if now != snap:
                         whatc = "items" if now[0] != snap[0] else "encoding"
                         V("mutation-leaks-into-other-instance",
